@@ -338,6 +338,7 @@ def check(run):
                   lambda c, o: (c['fit'], nonepat(c), c['right'], c['bottom'], c['px'][0], c['py'][0], o == 'raise', c['bw'], c['bh']),
                   'object-fit / object-position (contain inside, cover covers, scale-down, alignment, inside content box)')
     bg_stream(run, rng, k)
+    stream_streams(run, rng, k)
     run.stream_info('layout-direct', rule='replacedbox_layout on stub boxes: 12 intrinsic triples x 5 object-fit x origins x '
                     'px/% positions exhaustively + random; distinct = (fit, None pattern, origins, units, raises, box size)')
 
@@ -352,6 +353,50 @@ def bg_stream(run, rng, k):
                     'triples x 7 sizes x 16 repeat pairs exhaustively (sampled) + random sizes/positions/areas; distinct = '
                     '(None pattern, size kind, repeats, outcome, units, area)',
                     raises=sum(1 for c, o, m in res if o == 'raise'), unused=sum(1 for c, o, m in res if o == 'unused'))
+
+
+def slit(x):
+    return '"%s"' % x
+
+
+def stream_streams(run, rng, k):
+    # ---- Stream.add_image: random call sequences over few ids (collisions likely), prefix-related ids included
+    cases = []
+    idsets = [['aa', 'bb', 'cc'], ['a', 'a1', 'a0', '1a'], ['d41d8cd98f00b204e9800998ecf8427e', '0cc175b9c0f1b6a831c399e269772661'],
+              ['', '0', '1', '01']]
+    for n in range(250 * k):
+        ids = rng.choice(idsets)
+        m = rng.choice([0, 1, 2, 3, 5, 8, 13, 30])
+        calls = [[rng.randrange(len(ids)), rng.random() < 0.6, str(rng.choice([F(1), F(1), F(1, 2), F(2, 3), rq(rng, 1, 9, (10,))]))]
+                 for _ in range(m)]
+        cases.append(dict(ids=ids, calls=calls))
+    def to_coq(c, o):
+        calls = '[%s]' % '; '.join('Call %d%%nat %s %s %s' % (i, slit(c['ids'][i]), blit(b), qlit(F(r))) for i, b, r in c['calls'])
+        names = '[%s]' % '; '.join(slit(x) for x in o['names'])
+        imgs = '[%s]' % '; '.join('Entry %s %d%%nat %s [%s]' % (slit(n), i, blit(b), '; '.join(qlit(F(r)) for r in rs))
+                                  for n, i, b, rs in o['images'])
+        xo = '[%s]' % '; '.join(slit(x) for x in o['xobjects'])
+        return '(%s, %s, %s, %s)' % (calls, names, imgs, xo)
+    direct_stream(run, 'add-image-direct', 'add_images', cases, to_coq, 'list call * list string * list entry * list string',
+                  'stream_judge', lambda c, o: (tuple(c['ids']), len(c['calls']), len(o['images'])),
+                  'image_embedded_once (one entry per (id, interpolate), names returned)')
+    run.stream_info('add-image-direct', rule='random sequences of 0..30 Stream.add_image calls over 2-4 image ids (prefix-related '
+                    'ids included), both interpolate flags, few dpi ratios; distinct = (id set, calls, entries)')
+    cases = []
+    for n in range(200 * k):
+        keys = ['k%d' % i for i in range(rng.choice([1, 2, 3, 6]))]
+        cases.append(dict(dicts=[[x for x in keys if rng.random() < 0.6] for _ in range(rng.choice([1, 2, 3, 5, 9]))]))
+    def to_coq2(c, o):
+        ds = '[%s]' % '; '.join('[%s]' % '; '.join(slit(x) for x in d) for d in c['dicts'])
+        counts = '[%s]' % '; '.join('(%s, %d%%nat, %d%%nat)' % (slit(x), o['built'].get(x, 0), o['added'].get(x, 0)) for x in o['keys'])
+        if not o['same']:
+            counts = '[("different references", 0%nat, 0%nat)]'
+        return '(%s, %s)' % (ds, counts)
+    direct_stream(run, 'use-references-direct', 'use_refs', cases, to_coq2, 'list (list string) * list (string * nat * nat)',
+                  'refs_judge', lambda c, o: (len(c['dicts']), len(o['keys']), sum(len(d) for d in c['dicts'])),
+                  'each image XObject built and added to the PDF once')
+    run.stream_info('use-references-direct', rule='1..9 resource dictionaries (page, groups, patterns) naming 1..6 images, processed '
+                    'by pdf._use_references with counting stub images; distinct = (dictionaries, keys, references)')
 
 
 def replay(data):
